@@ -57,6 +57,10 @@ class Abort(Exception):
     pass
 
 
+class EngineLimit(Exception):
+    """the analysed code did something with a proxy that Engine P cannot model: the obligation is UNDECIDED (tool limit), never a violation"""
+
+
 class Ctx:
     cur = None
     base = []
@@ -141,7 +145,7 @@ class SymStr:
         return NotImplemented
 
     def __hash__(self):
-        raise TypeError("symbolic string used as a native dict key")
+        raise EngineLimit("symbolic string used as a key of a native dict / set (only module-level dicts of the analysed module are modelled)")
 
 
 def sym_int(x):  # replaces the builtin int() inside the analysed module
@@ -251,6 +255,9 @@ def explore(thunk):
             out = ("ret", thunk())
         except Abort:
             continue
+        except EngineLimit:
+            Ctx.cur = None
+            raise
         except Exception as ex:
             out = ("exc", ex)
         work.extend(ctx.pending)
@@ -288,6 +295,66 @@ class RegShim:
 
     def keys(self):
         return [SymStr(k) for k in self.keys_]
+
+
+class DictShim:
+    """a module-level dict of the analysed module (other than the registry) with symbolic string keys: an association list; membership and lookup fork on
+    key equality with every stored key (so two symbolic keys that MAY be equal are explored both ways)"""
+
+    def __init__(self, initial=None):
+        self.items_ = [(SymStr.lift(k), v) for k, v in (initial or {}).items()]
+
+    def _find(self, k):
+        t = SymStr.lift(k)
+        for i in range(len(self.items_) - 1, -1, -1):
+            if Ctx.cur.decide(t == self.items_[i][0]):
+                return i
+        return None
+
+    def __contains__(self, k):
+        return self._find(k) is not None
+
+    def __getitem__(self, k):
+        i = self._find(k)
+        if i is None:
+            raise KeyError(k)
+        return self.items_[i][1]
+
+    def get(self, k, default=None):
+        i = self._find(k)
+        return default if i is None else self.items_[i][1]
+
+    def __setitem__(self, k, v):
+        i = self._find(k)
+        if i is None:
+            self.items_.append((SymStr.lift(k), v))
+        else:
+            self.items_[i] = (self.items_[i][0], v)
+
+    def setdefault(self, k, v):
+        i = self._find(k)
+        if i is None:
+            self.items_.append((SymStr.lift(k), v))
+            return v
+        return self.items_[i][1]
+
+    def __len__(self):
+        return len(self.items_)
+
+
+def _shim_module_dicts(R):
+    """replace every module-level dict of the registration module except the registry by a fresh DictShim copy; returns the originals for restoring"""
+    saved = {}
+    for name, val in list(R.__dict__.items()):
+        if type(val) is dict and name != "_REGISTRY" and not name.startswith("__"):
+            saved[name] = val
+            setattr(R, name, DictShim(val))
+    return saved
+
+
+def _restore_module_dicts(R, saved):
+    for name, val in saved.items():
+        setattr(R, name, val)
 
 
 class Rec:
@@ -506,6 +573,7 @@ def run_make(ctx, K):
     real_registry, real_load = R._REGISTRY, R.load
     try:
         rec = Rec(ctx, f"make[K={K}]", [RR.make, RR.load])
+        saved_dicts = _shim_module_dicts(R)
         keys = [z3.String(f"k{i}") for i in range(K)]
         Ctx.base = ([z3.Distinct(*keys)] if K > 1 else []) + [z3.InRe(k, shim.FULLV) for k in keys]
         sid = SymStr(z3.String("id"))
@@ -532,6 +600,8 @@ def run_make(ctx, K):
                 del calls[:]
                 reg = RegShim(keys, specs_)
                 R._REGISTRY = reg
+                for nm_, val_ in saved_dicts.items():     # every other module-level dict starts each path as a fresh symbolic-key copy
+                    setattr(R, nm_, DictShim(val_))
                 r = R.make(sid, 1, 2, **callkw)
                 return r, list(calls), reg
             paths = explore(thunk)
@@ -564,11 +634,71 @@ def run_make(ctx, K):
                             rec.ob(f"{pname}.unknown_id_error_lists_registered_id_{i}[{j}]", pcs + [z3.Not(z3.Contains(msg, z3.Concat(z3.StringVal("- "), k)))])
             if K:
                 rec.const(f"{pname}.some_path_builds", n_ret >= 1)
+        # ---- histories: a second make() in the same process builds what is registered under ITS id, whatever was made before (K >= 2) ----
+        if K >= 2:
+            sid2 = SymStr(z3.String("id2"))
+            specs_ = []
+            for i in range(K):
+                s = RR.EnvSpec.__new__(RR.EnvSpec)
+                s.id, s.entry_point, s.kwargs, s.name, s.version = SymStr(keys[i]), f"m{i}:C{i}", {"x": A}, None, None
+                specs_.append(s)
+
+            def thunk2():
+                del calls[:]
+                R._REGISTRY = RegShim(keys, specs_)
+                for nm_, val_ in saved_dicts.items():
+                    setattr(R, nm_, DictShim(val_))
+                R.make(sid, 1)
+                n1 = len(calls)
+                R.make(sid2, 2)
+                return n1, list(calls)
+            for j, (c, out) in enumerate(explore(thunk2)):
+                if out[0] != "ret":
+                    continue   # refusals are the single-call clauses above
+                pcs = Ctx.base + c.facts + c.pc + canon_facts(c)
+                n1, cl = out[1]
+                ok = n1 == 1 and len(cl) == 2
+                rec.const(f"history.each_make_builds_exactly_once[{j}]", ok, detail={"calls": repr(cl)[:200]})
+                if ok:
+                    for which_call, the_id in ((0, sid), (1, sid2)):
+                        w = [i for i in range(K) if cl[which_call][0] == f"m{i}:C{i}"]
+                        rec.const(f"history.call_{which_call + 1}_uses_a_registered_entry_point[{j}]", len(w) == 1)
+                        if w:
+                            def wit(m, _w=w[0], _c=which_call):
+                                ids = [_mstr(m, k) for k in keys]
+                                first, second = _mstr(m, sid.t), _mstr(m, sid2.t)
+                                got = _native_two_makes(ids, first, second)
+                                return {"registered_ids": ids, "make_1": first, "make_2": second, "native_classes_built": got,
+                                        "confirmed": got is not None and got["built"][_c] != got["registered"][_c]}
+                            rec.ob(f"history.call_{which_call + 1}_builds_the_entry_registered_under_its_own_id[{j}]", pcs + [z3.Not(the_id.t == keys[w[0]])], witness=wit)
         rec.ob("canary.no_wellformed_id_exists", Ctx.base + [z3.InRe(sid.t, shim.FULLV)])
     finally:
         Ctx.base = []
         R.load = real_load
+        _restore_module_dicts(R, saved_dicts)
         _uninstall(R, real_re, real_registry)
+
+
+def _native_two_makes(ids, first, second):
+    """replay on the REAL module (fresh interpreter): register the model's ids with distinct real classes, make(first), make(second)"""
+    import subprocess
+    import sys
+    import json as _json
+    classes = ["jumanji.testing.fakes:FakeEnvironment", "jumanji.testing.fakes:FakeMultiEnvironment", "jumanji.testing.fakes:FakeEnvironment"]
+    kw = ["{'time_limit': 3}", "{'time_limit': 4}", "{'time_limit': 5}"]
+    code = ("import json, jumanji.registration as R\n"
+            "R._REGISTRY.clear()\n"
+            + "".join(f"R.register({i!r}, entry_point={classes[n % 3]!r}, kwargs={kw[n % 3]})\n" for n, i in enumerate(ids))
+            + f"a = R.make({first!r}); b = R.make({second!r})\n"
+            + "reg = {k: v.entry_point.split(':')[1] + str(v.kwargs) for k, v in R._REGISTRY.items()}\n"
+            + f"print(json.dumps({{'built': [type(a).__name__ + str({{'time_limit': a.time_limit}}), type(b).__name__ + str({{'time_limit': b.time_limit}})], "
+              f"'registered': [reg[{first!r}], reg[{second!r}]]}}))\n")
+    try:
+        env = dict(os.environ)
+        out = subprocess.run([sys.executable, "-c", code], capture_output=True, text=True, timeout=120, env=env)
+        return _json.loads(out.stdout.strip().splitlines()[-1])
+    except Exception:
+        return None
 
 
 def run_shipped(ctx, env_id):
